@@ -12,7 +12,11 @@ import (
 	"flag"
 	"fmt"
 	"math"
+	"math/bits"
 	"os"
+	"runtime"
+	"runtime/pprof"
+	"sync"
 	"sync/atomic"
 	"time"
 
@@ -24,6 +28,7 @@ import (
 	"verif/harness/internal/vh"
 	schedulingv1beta1 "volcano.sh/apis/pkg/apis/scheduling/v1beta1"
 	"volcano.sh/volcano/pkg/scheduler/api"
+	"volcano.sh/volcano/pkg/scheduler/cache"
 	"volcano.sh/volcano/pkg/scheduler/conf"
 	"volcano.sh/volcano/pkg/scheduler/framework"
 	"volcano.sh/volcano/pkg/scheduler/plugins/capacity"
@@ -225,16 +230,55 @@ func parentOf(k int) string {
 }
 
 // ---------- rounds of the real loop, and a watchdog ----------
-// proportion.go logs "Remaining resource is" at V(4) once per round, just before the exit test:
-// counting those lines measures the rounds of the REAL loop without touching it.
-var roundLines atomic.Int64
-var roundMarker = []byte("Remaining resource is")
+// proportion.go logs, at V(4), "Considering Queue <NAME>: weight ..." once per queue record and
+// round (line 223, before the meet test).  Every session gets queue names of its own
+// ("s<session>-q<k>"), so counting those lines per session measures the rounds of THAT session's
+// real loop without touching it - also while a runaway loop of an earlier session is still
+// logging in the background.
+var roundMarker = []byte("Considering Queue <s")
+
+type sessCounter struct{ lines atomic.Int64 }
+
+var sessCounters sync.Map // session slot -> *sessCounter
+
+// Session names come from a small pool of slots (unbounded names would grow the plugin's
+// per-queue Prometheus series without limit).  A slot is returned when its session has finished;
+// the slot of a session that was abandoned because its loop runs away is never reused, so its
+// background logging cannot be counted for a later session.
+var slotMu sync.Mutex
+var slotBusy [16]bool
+
+func takeSlot() int64 {
+	slotMu.Lock()
+	defer slotMu.Unlock()
+	for i := range slotBusy {
+		if !slotBusy[i] {
+			slotBusy[i] = true
+			return int64(i)
+		}
+	}
+	panic("no free session slot")
+}
+
+func freeSlot(i int64) {
+	slotMu.Lock()
+	slotBusy[i] = false
+	slotMu.Unlock()
+}
 
 type roundCounter struct{}
 
 func (roundCounter) Write(p []byte) (int, error) {
-	if bytes.Contains(p, roundMarker) {
-		roundLines.Add(1)
+	i := bytes.Index(p, roundMarker)
+	if i < 0 {
+		return len(p), nil
+	}
+	var id int64
+	for j := i + len(roundMarker); j < len(p) && p[j] >= '0' && p[j] <= '9'; j++ {
+		id = id*10 + int64(p[j]-'0')
+	}
+	if c, ok := sessCounters.Load(id); ok {
+		c.(*sessCounter).lines.Add(1)
 	}
 	return len(p), nil
 }
@@ -245,19 +289,67 @@ var klogFlags = func() *flag.FlagSet {
 	return fs
 }()
 
-const sessionTimeout = 20 * time.Second
+// the analytic bound of law 107 (Laws.v rounds_bound), recomputed here only to decide when a
+// loop is certainly running away: the watchdog fires at 100 times that bound
+func roundsBound(x *input) int64 {
+	var n, W int64
+	for _, q := range x.qs {
+		if q.hasJobs {
+			n++
+			if q.w > 0 {
+				W += q.w
+			}
+		}
+	}
+	var big int64 = 2
+	for _, c := range x.total {
+		if c.ok && c.v > big {
+			big = c.v
+		}
+	}
+	if W < 2 {
+		W = 2
+	}
+	l2 := func(z int64) int64 { return int64(bits.Len64(uint64(z - 1))) }
+	b := 63 + l2(big) + l2(W)
+	return n*(int64(x.D)+2) + n*(n+1)/2*(b*7/10+1) + 2
+}
+
+// A session that is merely slow (loaded machine, informer sync) is waited for; it is an
+// infrastructure failure (exit 3, nothing claimed) only after hardCap.  A VIOLATION is reported
+// only on evidence about the loop itself: it has executed more than 100 x rounds_bound rounds.
+const hardCap = 10 * time.Minute
 
 var hung atomic.Int64
+var slowest time.Duration
 
-// runOnce opens the session in its own goroutine and gives up after sessionTimeout: a loop that
-// no longer terminates is reported as a violation of this case, it never hangs the check.
 func runOnce(x *input, plugin string) result {
+	sid := takeSlot()
+	finished := false
+	defer func() {
+		if finished {
+			freeSlot(sid)
+		}
+	}()
 	count := plugin == "proportion"
+	ctr := &sessCounter{}
+	sessCounters.Store(sid, ctr)
+	nrec := int64(0)
+	for _, q := range x.qs {
+		if q.hasJobs {
+			nrec++
+		}
+	}
+	rounds := func() int64 {
+		if nrec == 0 {
+			return 0
+		}
+		return ctr.lines.Load() / nrec
+	}
 	if count {
 		klog.SetOutput(roundCounter{})
 		klogFlags.Set("v", "4")
 	}
-	before := roundLines.Load()
 	type outcome struct {
 		r   result
 		err any
@@ -269,16 +361,34 @@ func runOnce(x *input, plugin string) result {
 				ch <- outcome{err: e}
 			}
 		}()
-		ch <- outcome{r: runOnceRaw(x, plugin)}
+		ch <- outcome{r: runOnceRaw(x, plugin, sid)}
 	}()
+	limit := 100 * roundsBound(x)
+	start := time.Now()
+	tick := time.NewTicker(100 * time.Millisecond)
+	defer tick.Stop()
 	var o outcome
-	select {
-	case o = <-ch:
-	case <-time.After(sessionTimeout):
-		hung.Add(1)
-		klogFlags.Set("v", "0")
-		panic(fmt.Sprintf("OnSessionOpen of %s did not finish within %v (%d rounds of the fair-share loop so far): the loop does not terminate",
-			plugin, sessionTimeout, roundLines.Load()-before))
+wait:
+	for {
+		select {
+		case o = <-ch:
+			break wait
+		case <-tick.C:
+			if r := rounds(); count && r > limit {
+				hung.Add(1)
+				klogFlags.Set("v", "0")
+				panic(fmt.Sprintf("the fair-share loop of %s has executed %d rounds after %v and is still running; more than 100 x rounds_bound = %d: the loop does not terminate",
+					plugin, r, time.Since(start).Round(time.Millisecond), limit))
+			}
+			if time.Since(start) > hardCap {
+				fmt.Fprintf(os.Stderr, "INFRA: opening the session did not finish within %v (%d rounds of the loop so far, no evidence of a runaway loop); giving up, nothing is claimed\n", hardCap, rounds())
+				os.Exit(3)
+			}
+		}
+	}
+	finished = true
+	if d := time.Since(start); d > slowest {
+		slowest = d
 	}
 	if count {
 		klogFlags.Set("v", "0")
@@ -286,11 +396,51 @@ func runOnce(x *input, plugin string) result {
 	if o.err != nil {
 		panic(o.err)
 	}
-	o.r.rounds = roundLines.Load() - before
+	o.r.rounds = rounds()
 	return o.r
 }
 
-func runOnceRaw(x *input, plugin string) result {
+// openSession does what uthelper.TestCommonStruct.RegisterSession does (mock scheduler cache
+// with fake binder/evictor, objects added through the cache's own handlers, plugin builders
+// registered, framework.OpenSession) except that the cache's Run() is not called: Run starts
+// about 25 worker goroutines per cache that block in workqueue.Get() for ever after the stop
+// channel is closed (the queues are never shut down), which leaked ~700 KB per session and
+// brought a thorough-tier run to 60 GB.  Nothing the fair-share computation reads depends on
+// those workers: the session is built from the cache's snapshot.
+func openSession(t *uthelper.TestCommonStruct, tiers []conf.Tier) (*framework.Session, func()) {
+	sc := cache.NewCustomMockSchedulerCache("utmock-scheduler", util.NewFakeBinder(0), util.NewFakeEvictor(0),
+		&util.FakeStatusUpdater{}, nil, nil)
+	for _, n := range t.Nodes {
+		sc.AddOrUpdateNode(n)
+	}
+	for _, p := range t.Pods {
+		sc.AddPod(p)
+	}
+	for _, pg := range t.PodGroups {
+		sc.AddPodGroupV1beta1(pg)
+	}
+	for _, q := range t.Queues {
+		sc.AddQueueV1beta1(q)
+	}
+	ready := new(atomic.Bool)
+	ready.Store(true)
+	sc.HyperNodesInfo = api.NewHyperNodesInfoWithCache(nil, nil, nil, ready)
+	uthelper.RegisterPlugins(t.Plugins)
+	ssn := framework.OpenSession(sc, tiers, nil)
+	return ssn, func() {
+		framework.CloseSession(ssn)
+		framework.CleanupPluginBuilders()
+		sc.VerifShutdownQueues()
+	}
+}
+
+func runOnceRaw(x *input, plugin string, sid int64) result {
+	sname := func(l string) string {
+		if l == "root" {
+			return l
+		}
+		return fmt.Sprintf("s%d-%s", sid, l)
+	}
 	hier := plugin == "capacity-hier"
 	if hier {
 		plugin = "capacity"
@@ -320,7 +470,7 @@ func runOnceRaw(x *input, plugin string) result {
 		if q.hasCap {
 			cp = rlist(q.cap, false)
 		}
-		qu := util.BuildQueue(qname(k), int32(q.w), cp)
+		qu := util.BuildQueue(sname(qname(k)), int32(q.w), cp)
 		qu.Status.State = pick(queueStates, q.state)
 		if g := rlist(q.gua, false); len(g) > 0 {
 			qu.Spec.Guarantee.Resource = g
@@ -331,7 +481,7 @@ func runOnceRaw(x *input, plugin string) result {
 			}
 		}
 		if hier {
-			qu.Spec.Parent = parentOf(k)
+			qu.Spec.Parent = sname(parentOf(k))
 		}
 		t.Queues = append(t.Queues, qu)
 		if !q.hasJobs || (hier && k < 2) {
@@ -339,9 +489,9 @@ func runOnceRaw(x *input, plugin string) result {
 		}
 		pg := fmt.Sprintf("pg%d", k+1)
 		pg2 := pg + "b"
-		t.PodGroups = append(t.PodGroups, util.BuildPodGroup(pg, "ns", qname(k), 1, nil, pick(pgPhases, q.ph1)))
+		t.PodGroups = append(t.PodGroups, util.BuildPodGroup(pg, "ns", sname(qname(k)), 1, nil, pick(pgPhases, q.ph1)))
 		if q.ph2 >= 0 {
-			t.PodGroups = append(t.PodGroups, util.BuildPodGroup(pg2, "ns", qname(k), 1, nil, pick(pgPhases, q.ph2)))
+			t.PodGroups = append(t.PodGroups, util.BuildPodGroup(pg2, "ns", sname(qname(k)), 1, nil, pick(pgPhases, q.ph2)))
 		}
 		for j, tk := range q.tasks {
 			phase, node := v1.PodPending, ""
@@ -382,8 +532,8 @@ func runOnceRaw(x *input, plugin string) result {
 		t.Queues = append(t.Queues, util.BuildQueue("root", 1, nil))
 	}
 	tiers := []conf.Tier{{Plugins: []conf.PluginOption{opt}}}
-	ssn := t.RegisterSession(tiers, nil)
-	defer t.Close()
+	ssn, closeSession := openSession(&t, tiers)
+	defer closeSession()
 	res := result{qs: make([]qrec, len(x.qs))}
 	fill := func(k int, id api.QueueID, w int64, des, alloc, req, rcap, gua *api.Resource) {
 		r := &res.qs[k]
@@ -398,7 +548,7 @@ func runOnceRaw(x *input, plugin string) result {
 	}
 	idx := map[string]int{}
 	for k := range x.qs {
-		idx[qname(k)] = k
+		idx[sname(qname(k))] = k
 	}
 	if plugin == "proportion" {
 		s := snapP()
@@ -1160,7 +1310,14 @@ func generate(rng *vh.Rng, n int, emit func(id string, sel int, in []int64, kind
 
 func main() {
 	vh.Harness{Run: run, Laws: laws, Gen: generate}.Main()
+	if f := os.Getenv("C12_GOROUTINES"); f != "" {
+		if w, err := os.Create(f); err == nil {
+			pprof.Lookup("goroutine").WriteTo(w, 1)
+			w.Close()
+		}
+	}
 	if os.Getenv("C12_STATS") != "" {
+		fmt.Fprintf(os.Stderr, "slowest session: %v; goroutines at exit: %d\n", slowest, runtime.NumGoroutine())
 		fmt.Fprintf(os.Stderr, "order statistics: %d queue records differ between two map orders, largest deviation %g\n", orderDiffs, orderDev)
 	}
 }
